@@ -126,6 +126,21 @@ check("C07",
       "Coq proof (dataflow soundness by induction over runs + exhaustive in-kernel structural sweep) + differential execution with perturbed hidden state on Python and Rust",
       "DESIGN.md 5 C07")
 
+check("C09",
+      "The assembler's grammar, transformer and template matching are not modelled; they are exercised on the implementation for every accepted encoding structure: render -> source text (numbers as 0x literals, named registers by name) -> Assembler.assemble at the same address -> decode, comparing text, lifted IL, second-round stability and byte consumption, plus single-operand templates written in each of the six internal addressing modes. "
+      "Coq theorems (over PRE_TABLE, REVERSE_PRE_TABLE, SINGLE_OPERAND_PRE_LOOKUP regenerated from the source each run, decided in the kernel over the whole finite tables): every mode pair the disassembler can show is assembled with the very prefix it was decoded from; every prefix the assembler can select decodes to the pair written; for a lone operand in a first-slot mode the selected prefix has that mode in the slot the decoder applies; the second-slot modes on a lone operand are refuted with a witness.",
+      "Trusted: Coq kernel, translator tr_tables.py, harness asm_cmd.py (token text to source). NOT modelled: asm.lark, asm.py, _build_instruction template matching and operand encoding - decided by the round trip on the implementation, so the level is partial. Seven root-cause families of round-trip failure are known findings (direct (n) assembled without prefix, (BP+PX)/(BP+PY) operand byte dropped, pointer-cell modes, 16/24-bit forms without prefix, rejected (BP+PX),(BP+PY) pair, register-pair opcode ambiguity, second-slot modes); one fixed ((BP+m),(BP+n) rejected).",
+      "Coq vm_compute over prefix tables regenerated from source (exhaustive) + disassemble/assemble/disassemble round trip on every accepted encoding structure",
+      "DESIGN.md 5 C09")
+
+check("C10",
+      "Executable model of the two passes of sc_asm.py over statement sizes (Model/AsmLayout.v: section pointers from SECTION_BASE_ADDRESSES, new-section rule, literal/symbolic .ORG, label definition, bss follows data, bss emits nothing, unknown section / duplicate label / undefined symbol errors). "
+      "Coq theorems, for programs of any length over the built-in sections with literal .ORGs: every line is seen at the same address by pass one (labels, sizes) and pass two (byte placement) outside .bss (lockstep invariant on the two pointer maps, induction over the program); a label takes the pass-one address of its line; the symbolic-.ORG case is refuted with a witness. "
+      "Every run: generated programs (labels with forward/backward references, sections, .ORG, instructions with symbolic operands, defb/defw/defl/defs/defm) assembled by Assembler.assemble and laid out by the extracted model: symbol tables, placements, total image size, each statement's bytes equal to assembling it alone at its address with symbols replaced by values, near JP/CALL to another page rejected, and call histories (same object reused, interleaved programs) against fresh objects.",
+      "Trusted: Coq kernel, extraction, harness asm_cmd.py. Modelled not verified: _first_pass/_second_pass/_apply_location. Not modelled: parser, per-instruction encoding (_build_instruction/_encode_statement; compared statement-by-statement on the implementation), bincopy segment handling. Known finding: symbolic .ORG counts as 0 in pass one.",
+      "Coq proof (lockstep invariant, induction over programs) + extracted-model correspondence vs Assembler.assemble on generated programs and call histories",
+      "DESIGN.md 5 C10")
+
 NOT_APPLICABLE = {}
 
 def build():
